@@ -216,20 +216,20 @@ type loopRequest struct {
 }
 
 type loopHarness struct {
-	t        *rapid.T
-	matcher  *Matcher
-	eventBox *util.EventBox
-	cl       *ChunkList
-	mk       func(q string) func(cache *ChunkCache, cacheable bool) *Pattern
-	tac      bool
-	mu       sync.Mutex
-	requests []loopRequest
-	seen     []*Merger
-	stopCh   chan struct{}
-	done     chan struct{}
-	cancelAt int // chunk count at which the hook injects a superseding request (0 = never)
-	injected bool
-	inject   func()
+	t              *rapid.T
+	matcher        *Matcher
+	eventBox       *util.EventBox
+	cl             *ChunkList
+	mk             func(q string) func(cache *ChunkCache, cacheable bool) *Pattern
+	tac            bool
+	mu             sync.Mutex
+	requests       []loopRequest
+	seen           []*Merger
+	stopCh         chan struct{}
+	done           chan struct{}
+	cancelAt       int // chunk count at which the hook injects a superseding request (0 = never)
+	injected       bool
+	inject         func()
 	cancelledScans int
 	publishes      int
 }
